@@ -1,10 +1,12 @@
 pub mod c01;
+pub mod c11;
 
 use crate::report::Ctx;
 
 pub fn run(ctx: &mut Ctx) -> bool {
     match ctx.prop.as_str() {
         "C01" => c01::run(ctx),
+        "C11" => c11::run(ctx),
         _ => return false,
     }
     true
